@@ -152,6 +152,8 @@ fn main() {
                     json!(ok)
                 }
                 "close" => { db.cleanup_file_cache(&file); Value::Null }
+                // what the venv scan does for the entry module of a pytest11 plugin before analysing it
+                "mark_plugin" => { db.plugin_fixture_files.insert(file.clone(), ()); Value::Null }
                 "write" => { std::fs::write(&file, step["text"].as_str().unwrap()).unwrap(); Value::Null }
                 "query" => run_query(&db, &root, &step["q"]),
                 _ => json!("unknown-op"),
